@@ -552,3 +552,10 @@ def install(cfg):
                     items.append(x)
             res.append(tuple(items))
         return HList(items=res)
+
+    @cfg.stub(api.spec_hash)
+    def spec_hash(interp, name, data):
+        from . import trusted_crypto as TC
+        if is_plain(data):
+            return api.spec_hash(name, data)
+        return interp.mk("vbytes", TC.Hash(z3.StringVal(name), interp.bytes_term(data)))
